@@ -167,6 +167,10 @@ impl<'a> Parser<'a> {
                 }
             }
             if self.at(TokenKind::Eof) {
+                if end_token.is_some() {
+                    // The Eof arm above reports the unterminated block
+                    continue;
+                }
                 break;
             } else if self.at(TokenKind::Eol) {
                 self.skip();
